@@ -56,20 +56,20 @@ static void st_trace_hook(int phase, int dtype, int jcol, double u, int usepr, i
     g_ntr++;
 }
 
-/* ---- watchdog: a run that does not return within the limit is abandoned and recorded ----
- * The limit is CPU time of this process (ITIMER_PROF), so a loaded machine cannot produce a false
- * "hang".  A run inside a caller workspace is abandoned with siglongjmp (its growth loops do not call the
- * allocation ledger, so no lock is held); a run under library allocation may be inside the ledger when the
- * signal arrives, so there the process reports and exits and `check` resumes with the next case. */
-/* hangs seen in the current case: after ST_MAXHANG of them the remaining runs of the case are skipped (hang = 2)
- * so that a tree in which many runs hang still finishes in bounded time */
+/* ---- watchdog: a run that does not return within the limit is a hang ----
+ * Two limits per run: CPU time of this process (ITIMER_PROF; a loaded machine cannot produce a false
+ * "hang") and a long wall-clock limit (ITIMER_REAL) for a run that blocks instead of spinning.
+ * Default reaction (wd=exit): report the configuration on fd 2 and _exit(78); `check` records a crash
+ * for the case ("SLU-ABORT watchdog ... (hang) <configuration>") and resumes with the next case.  This is
+ * the only reaction that is safe whatever the library was doing (it may hold the stdio lock of stderr or
+ * the allocation ledger's mutex when the signal arrives).  wd=jmp abandons the run with siglongjmp and
+ * goes on with the case (for experiments only). */
 #define ST_MAXHANG 3
 static int g_case_hangs;
-static sigjmp_buf g_wd_jmp; static volatile sig_atomic_t g_wd_armed; static int g_wd_exit, g_wd_exit_run; static char g_wd_what[160];
+static sigjmp_buf g_wd_jmp; static volatile sig_atomic_t g_wd_armed; static int g_wd_exit = 1, g_wd_exit_run; static char g_wd_what[160];
 static void st_on_alarm(int sig) {
-    (void)sig;
-    if (g_wd_armed && !g_wd_exit && !g_wd_exit_run) { g_wd_armed = 0; siglongjmp(g_wd_jmp, 1); }
-    /* exit mode (or a stray alarm while the case-level timer is running): report and stop */
+    if (g_wd_armed && !g_wd_exit && !g_wd_exit_run && sig == SIGPROF) { g_wd_armed = 0; siglongjmp(g_wd_jmp, 1); }
+    if (!g_wd_armed) return;      /* stray signal after the run returned */
     static const char m1[] = "SLU-ABORT watchdog: no return within the time limit (hang) ";
     if (write(2, m1, sizeof m1 - 1) < 0) {}
     if (write(2, g_wd_what, strlen(g_wd_what)) < 0) {}
@@ -78,14 +78,18 @@ static void st_on_alarm(int sig) {
 }
 static void st_wd_install(const ctx_t *c) {
     struct sigaction sa; memset(&sa, 0, sizeof sa); sa.sa_handler = st_on_alarm; sa.sa_flags = SA_NODEFER;
-    sigaction(SIGPROF, &sa, NULL);
-    g_wd_exit = !strcmp(ctx_arg(c, "wd", "jmp"), "exit");
+    sigaction(SIGPROF, &sa, NULL); sigaction(SIGALRM, &sa, NULL);
+    g_wd_exit = strcmp(ctx_arg(c, "wd", "exit"), "jmp") != 0;
 }
 static void st_wd_arm(long ms) {
     struct itimerval it; memset(&it, 0, sizeof it); it.it_value.tv_sec = ms / 1000; it.it_value.tv_usec = (ms % 1000) * 1000;
     setitimer(ITIMER_PROF, &it, NULL);
+    memset(&it, 0, sizeof it); it.it_value.tv_sec = 120 + ms / 10; setitimer(ITIMER_REAL, &it, NULL);
 }
-static void st_wd_disarm(void) { struct itimerval it; memset(&it, 0, sizeof it); setitimer(ITIMER_PROF, &it, NULL); g_wd_armed = 0; }
+static void st_wd_disarm(void) {
+    g_wd_armed = 0;
+    struct itimerval it; memset(&it, 0, sizeof it); setitimer(ITIMER_PROF, &it, NULL); setitimer(ITIMER_REAL, &it, NULL);
+}
 
 /* The library prints diagnostics with printf ("Not enough memory to perform factorization.");
  * keep them out of the protocol stream: the protocol continues on a duplicate of fd 1, fd 1 itself
